@@ -37,9 +37,20 @@ static void coll(int kind)
     if (g_coll_n < 1000000) g_coll_n++;
 }
 
-/* model of a derived datatype: opaque object carrying its size in bytes */
-typedef struct { long long size; long long extent; int committed; } vtype;
-
+/* model of a derived datatype: an integer handle (never dereferenced, so a datatype value that
+ * reaches the model through a havocked out-parameter of a replaced callee is harmless); its size in
+ * bytes is kept in a ghost table */
+#define VT_BASE 0x100000UL
+#define VT_STEP 64UL
+#define VT_MAX 32
+long long g_tsize[VT_MAX];
+int g_type_next;
+static int vt_index(MPI_Datatype t)
+{
+    unsigned long a = (unsigned long)t;
+    if (a < VT_BASE + VT_STEP || a >= VT_BASE + VT_STEP * VT_MAX || (a - VT_BASE) % VT_STEP != 0) return -1;
+    return (int)((a - VT_BASE) / VT_STEP);
+}
 static long long predefined_size(MPI_Datatype t)
 {
     if (t == MPI_BYTE || t == MPI_CHAR || t == MPI_SIGNED_CHAR || t == MPI_UNSIGNED_CHAR) return 1;
@@ -53,15 +64,16 @@ static long long type_size(MPI_Datatype t)
 {
     long long s = predefined_size(t);
     if (s >= 0) return s;
-    if (t == MPI_DATATYPE_NULL) return 0;
-    return ((vtype *)t)->size;
+    int k = vt_index(t);
+    if (k < 0) return 0;
+    return g_tsize[k];
 }
 static MPI_Datatype new_type(long long size)
 {
-    vtype *v = malloc(sizeof(vtype));
-    v->size = size; v->extent = size; v->committed = 0;
+    if (g_type_next < VT_MAX - 1) g_type_next++;
+    g_tsize[g_type_next] = size;
     g_type_live++;
-    return (MPI_Datatype)v;
+    return (MPI_Datatype)(VT_BASE + VT_STEP * (unsigned long)g_type_next);
 }
 
 /* ------------------------------------------------------------------ communicator / process */
@@ -156,7 +168,7 @@ int MPI_Type_commit(MPI_Datatype *t) { return MPI_SUCCESS; }
 int MPI_Type_free(MPI_Datatype *t)
 {
     __CPROVER_assert(predefined_size(*t) < 0 && *t != MPI_DATATYPE_NULL, "model: MPI_Type_free of a predefined or null datatype");
-    free(*t); *t = MPI_DATATYPE_NULL; g_type_live--;
+    *t = MPI_DATATYPE_NULL; g_type_live--;
     return MPI_SUCCESS;
 }
 int MPI_Type_dup(MPI_Datatype old, MPI_Datatype *newt) { *newt = new_type(type_size(old)); return MPI_SUCCESS; }
